@@ -312,6 +312,29 @@ def run(tier, seed):
     rep.notes["model_mismatches"] = len(f)
     rep.notes["programs"] = len(progs)
     rep.notes["block_outcomes"] = len(BLOCKS)
+    # the set-up code of the generator (before its yield) fails with an exception of any type -- also of the types the
+    # library handles for its own purposes: it propagates out of the entering as the same object, like asynccontextmanager
+    for exc_cls in (AttributeError, TypeError, RuntimeError, KeyError, LookupError, ValueError, StopAsyncIteration, StopIteration, AssertionError, KeyboardInterrupt):
+        raised = []
+
+        def pre_raiser():
+            async def gen():
+                e = exc_cls("set-up failed")
+                raised.append(e)
+                raise e
+                yield "value"
+            return gen
+        outs = []
+        for factory in (a.contextmanager, contextlib.asynccontextmanager):
+            del raised[:]
+            out, cnt, closed = run_cm(factory, pre_raiser(), "normal", None, Ids())
+            e = out[3] if out[0] == "raises" else None
+            outs.append((out[0], type(e).__name__, str(e), e is not None and builtins.any(e is r for r in raised), type(getattr(e, "__cause__", None)).__name__))
+        rep.count(("contextmanager-setup-raises", exc_cls.__name__), True)
+        if outs[0] != outs[1]:
+            fails += 1
+            rep.violation("contextmanager:setup-raises", {"exception": exc_cls.__name__, "why": "the generator raises %s before its yield; (outcome, type, message, same object, cause): "
+                                                          "asyncstdlib %r, contextlib %r" % (exc_cls.__name__, outs[0], outs[1])})
     # a manager object owns exactly one run of its generator: entering it a second time (after its block ended, or while it
     # is active) is refused, the generator body never runs twice -- as with asynccontextmanager
     for when in ("after",):     # (re-entering while the first block is still active is misuse on which the two libraries differ)
